@@ -77,9 +77,9 @@ def make_dst(mode, h, w, defined, base):
         if mode in ("RGB", "RGBA"):
             a[y, x] = (v % 256, (v + 30) % 256, (v + 60) % 256, 150 + k) if defined[k] else (0, 0, 0, 0)
         elif mode in ("F32", "F64"):
-            a[y, x] = v + 0.25 if defined[k] else np.nan
+            a[y, x] = (np.inf if k % 4 == 2 else v + 0.25) if defined[k] else np.nan
         elif mode == "F16x3":
-            a[y, x] = (v, v + 1, v + 2) if defined[k] else (np.nan, np.nan, np.nan)
+            a[y, x] = (v, v + 1, -np.inf if k % 4 == 2 else v + 2) if defined[k] else (np.nan, np.nan, np.nan)
         else:
             a[y, x] = v if defined[k] else 0
     return a
@@ -292,7 +292,7 @@ def buffers_job(mode, H=2, W=3):
 
 # --- Part B: persistence histories ----------------------------------------------------------
 
-OPS = ["write_A", "write_B", "write_partial", "write_undef", "read_none", "read_masked", "update_identity", "update_region", "stale_file"]
+OPS = ["write_A", "write_B", "write_partial", "write_undef", "write_inf", "read_none", "read_masked", "update_identity", "update_region", "stale_file"]
 
 
 def tile_arrays(mode):
@@ -359,8 +359,15 @@ def persistence_job(job):
 
     def apply(pio, d, op, ref, hist):
         """Apply one op to the real directory and to the reference state; check; return new ref."""
-        if op in ("write_A", "write_B", "write_partial", "write_undef"):
-            arr = {"write_A": A, "write_B": B, "write_partial": partial, "write_undef": undef}[op]
+        if op in ("write_A", "write_B", "write_partial", "write_undef", "write_inf"):
+            arr = {"write_A": A, "write_B": B, "write_partial": partial, "write_undef": undef, "write_inf": None}[op]
+            if op == "write_inf":
+                if mode not in ("F32", "F64"):
+                    return ref, False
+                # every pixel non-finite, a few of them +-inf (defined): the tile is not all-undefined
+                arr = np.full_like(A, np.nan)
+                arr[3, 4] = np.inf
+                arr[200:, 100] = -np.inf
             if arr is None:
                 return ref, False
             pio.write_image(pos, Image.from_array(arr.copy()), **fk)
